@@ -25,6 +25,17 @@ def sym_transition(i, obs_dim):
     }
 
 
+def sym_transition_int(i, obs_dim):
+    """A transition whose fields happen to be integer-typed (integer start observation, reward 0, ...)."""
+    return {
+        "observation": [sym_int(f"io{i}_{k}", -3, 3) for k in range(obs_dim)],
+        "action": sym_int(f"ia{i}", -3, 3),
+        "reward": sym_int(f"ir{i}", -3, 3),
+        "next_observation": [sym_int(f"ino{i}_{k}", -3, 3) for k in range(obs_dim)],
+        "termination": sym_bool(f"t{i}"),
+    }
+
+
 def _eq(a, b):
     """element-wise equality of a stored field with a reference field (proxy bool / python bool)."""
     a = list(np.asarray(a, dtype=object).reshape(-1))
@@ -57,17 +68,17 @@ def any_of(conds):
     return acc
 
 
-def fifo_program(cls_name, N, obs_dim, B, extra_adds):
+def fifo_program(cls_name, N, obs_dim, B, extra_adds, int_first=False):
     from rl_blox.blox import replay_buffer as rb
 
     def prog(ctx):
         sym = not getattr(ctx, "is_replay", False)
-        with overlay(rb, np=NpShim(), jnp=JnpShim()):
+        with overlay(rb, np=NpShim(typed=int_first), jnp=JnpShim()):
             buf = getattr(rb, cls_name)(N)
             n = int(sym_int("n_adds", 0, N + extra_adds))
             ref = []
             for i in range(n):
-                tr = sym_transition(i, obs_dim)
+                tr = sym_transition_int(i, obs_dim) if (int_first and i == 0) else sym_transition(i, obs_dim)
                 buf.add_sample(**tr)
                 ref.append(tr)
                 ctx.check(len(buf) == min(i + 1, N), "length=min(n,N)")
@@ -90,18 +101,19 @@ def fifo_program(cls_name, N, obs_dim, B, extra_adds):
     return prog
 
 
-def content_program(cls_name, N, obs_dim, extra_adds):
-    """Every one of the most recent min(n,N) transitions is still retrievable, unmodified."""
+def content_program(cls_name, N, obs_dim, extra_adds, int_first=False):
+    """Every one of the most recent min(n,N) transitions is still retrievable, unmodified.  int_first: the first
+    transition's fields are integer-typed values (the storage must still be the declared float storage)."""
     from rl_blox.blox import replay_buffer as rb
 
     def prog(ctx):
         sym = not getattr(ctx, "is_replay", False)
-        with overlay(rb, np=NpShim(), jnp=JnpShim()):
+        with overlay(rb, np=NpShim(typed=int_first), jnp=JnpShim()):
             buf = getattr(rb, cls_name)(N)
             n = int(sym_int("n_adds", 1, N + extra_adds))
             ref = []
             for i in range(n):
-                tr = sym_transition(i, obs_dim)
+                tr = sym_transition_int(i, obs_dim) if (int_first and i == 0) else sym_transition(i, obs_dim)
                 buf.add_sample(**tr)
                 ref.append(tr)
             live = ref[-min(n, N):]
@@ -210,12 +222,12 @@ def main(tier, seed):
     caps = [1, 2, 3] if tier == "quick" else [1, 2, 3, 4]
     extra = 2 if tier == "quick" else 3
     rep.r.bounds = {"capacities": caps, "adds": f"symbolic n in [0, N+{extra}] (covers exact wrap-around and overwrite)", "batch_sizes": [1, 2] if tier == "quick" else [1, 3],
-                    "observation_dims": [1, 2], "classes": ["ReplayBuffer", "LAP", "PrioritizedReplayBuffer", "MultiTaskReplayBuffer(T=2)"],
+                    "observation_dims": [1, 2], "classes": ["ReplayBuffer", "LAP", "PrioritizedReplayBuffer", "MultiTaskReplayBuffer(T=2,3; thorough also 4)"],
                     "multitask_ops": 4 if tier == "quick" else 5,
                     "inductive_step": "one add_sample from an ARBITRARY state satisfying the representation invariant (symbolic cursor, length, contents): covers histories of any length for these capacities"}
     rep.r.assumptions = ["np.empty/asarray inside replay_buffer.py replaced by object-array allocators (poisoned slots); all other numpy semantics are numpy's own",
                          "jnp.asarray is the identity (device transfer not modelled)", "generator draws: arbitrary ints in [lo,hi) / reals in the open interval (0,1)",
-                         "flags compared as 0/1 (documented storage dtype int); float->storage dtype rounding outside the claim"]
+                         "flags compared as 0/1 (documented storage dtype int); float64->float32 rounding outside the claim; writes into INTEGER storage truncate toward zero as numpy does (logical dtype of each allocation tracked by the shim)"]
     rep.r.stubs = ["np (allocation only)", "jnp.asarray", "np.random.Generator -> RngStub"]
     for cls in ("ReplayBuffer", "LAP", "PrioritizedReplayBuffer"):
         for N in caps:
@@ -225,9 +237,16 @@ def main(tier, seed):
         for N in caps:
             rep.run(f"ReplayBuffer-content[{cls},N={N}]", content_program(cls, N, 1, extra), fn=f"{cls}.add_sample + storage") if cls == "ReplayBuffer" else None
     for cls in ("ReplayBuffer", "LAP", "PrioritizedReplayBuffer"):
+        # storage dtype = the declared one, whatever the Python / numpy type of the first transition's values
+        rep.run(f"{cls}[N=2,B=1,first-transition-integer-typed]:fifo", fifo_program(cls, 2, 1, 1, 1, int_first=True), fn=f"{cls}.add_sample + storage dtype")
+    for cls in ("ReplayBuffer", "LAP", "PrioritizedReplayBuffer"):
         for N in caps:
             rep.run(f"{cls}[N={N}]:inductive-step", inductive_program(cls, N), fn=f"{cls}.add_sample from an arbitrary invariant-satisfying state")
     rep.run("MultiTaskReplayBuffer[T=2,N=2]", multitask_program(2, 2, rep.r.bounds["multitask_ops"]), fn="MultiTaskReplayBuffer.select_task/add_sample/sample_batch")
+    # more than two tasks (the per-task buffers must be independent objects whatever their number)
+    rep.run("MultiTaskReplayBuffer[T=3,N=1]", multitask_program(3, 1, rep.r.bounds["multitask_ops"] - 1), fn="MultiTaskReplayBuffer.select_task/add_sample/sample_batch")
+    if tier != "quick":
+        rep.run("MultiTaskReplayBuffer[T=4,N=1]", multitask_program(4, 1, 3), fn="MultiTaskReplayBuffer.select_task/add_sample/sample_batch")
     return rep.finish()
 
 
